@@ -1,5 +1,6 @@
 """C11 — IP-restricted automation certificates work only from their netblocks."""
 import json
+import random
 from . import common as c
 
 V4AFI = bytes([0, 1, 1])
@@ -325,6 +326,60 @@ def gen_lib(ctx, n_mint, n_wire, n_raw):
     return ops
 
 
+def gen_cmint(rng, n_ops, rounds):
+    """several requests minted AT THE SAME TIME (one worker each): per worker its own netblock list (1..16 blocks, also longer
+    ones and lists of unequal length, disjoint / sibling / partly shared with the neighbour) and an address from which the
+    certificate is then used: inside its own blocks or inside another worker's"""
+    ops = []
+    for i in range(n_ops):
+        nw = [2, 3, 8, 4, 2, 6, 12, 5][i % 8] if i < 8 else rng.randrange(2, 13)
+        workers = []
+        for g in range(nw):
+            k = rng.choice([1, 2, 3, 5, 8, 12, 16, 16, 17, 24]) if i % 3 else rng.randrange(1, 17)
+            shape = rng.randrange(4)
+            nets = []
+            for j in range(k):
+                if shape == 0:      # the demo's shape of lists: worker-specific first octet, /16s
+                    nets.append((((20 + g) << 24) | (j << 16), 16))
+                elif shape == 1:    # siblings: the same networks as the neighbour but one bit apart
+                    n = rng.randrange(1, 33)
+                    a = ((10 << 24) | (j << 12)) & netmask(n)
+                    nets.append(((a ^ ((g & 1) << (32 - n))) & 0xFFFFFFFF, n))
+                else:
+                    nets.append(rand_block(rng, rng.randrange(33)))
+            if shape == 3 and workers and workers[-1][0] != ["other"]:      # shares a prefix of the neighbour's list
+                nets = (workers[-1][0][:rng.randrange(1, 4)] + nets)[:max(k, 1)]
+            if rng.random() < 0.04:
+                nets = ["other"]
+            workers.append([nets, None, None])
+        for g, w in enumerate(workers):
+            own = [x for x in w[0] if x != "other"]
+            foreign = [x for h, o in enumerate(workers) if h != g for x in o[0] if x != "other"]
+            src = foreign if (foreign and rng.random() < 0.6) else (own or [(0, 0)])
+            a, n = rng.choice(src)
+            pa = (a | (rng.getrandbits(32) & ~netmask(n))) & 0xFFFFFFFF
+            w[1], w[2] = rng.choice(peer_forms(rng, pa)[:2])
+        specs = ["%s@%s" % (",".join("other" if x == "other" else blk(*x) for x in nets) or "-", c.hexs(addr)) for nets, addr, _ in workers]
+        ops.append(("cmint", "cmint %d %s" % (rounds, " ".join(specs)),
+                    {"workers": [(nets, addr, cls) for nets, addr, cls in workers], "rounds": rounds}))
+    return ops
+
+
+def gen_cget(rng, n_ops, rounds):
+    """creation requests (POST /v1/getRoleRequestingCert) handled AT THE SAME TIME, one worker each, CIDR strings as an operator
+    types them; each certificate is at once refreshed from the worker's address (inside its own blocks or another worker's)"""
+    out = []
+    for kind, line, meta in gen_cmint(rng, n_ops, rounds):
+        workers = []
+        for nets, addr, cls in meta["workers"]:
+            if nets == ["other"] or not nets:
+                nets = [rand_block(rng, rng.randrange(8, 33))]
+            workers.append((canon_cidr_strings(rng, nets), nets, addr, cls))
+        line = "cget %d %s" % (rounds, " ".join("%s@%s" % (c.hexs(",".join(strs)), c.hexs(addr)) for strs, _, addr, _ in workers))
+        out.append((line, workers, rounds))
+    return out
+
+
 HOSTILE_NAMES = ["role2", "admin1", "root", "username", "", "role1 ", "ROLE1"]
 
 
@@ -578,6 +633,8 @@ def run(ctx):
     quick = ctx.quick()
     lib = gen_lib(ctx, 900 if quick else 12000, 500 if quick else 8000, 300 if quick else 6000)
     hnd = gen_handler(ctx, 700 if quick else 9000)
+    # concurrent mints last (own random stream: the ops above stay what they were)
+    lib += gen_cmint(random.Random("C11-cmint-%s" % ctx.seed), 16 if quick else 120, 40 if quick else 150)
     replaying = bool(ctx.replay)
     if ctx.replay:
         rp = json.load(open(ctx.replay))
@@ -602,11 +659,62 @@ def run(ctx):
         ctx.broken.append("harness TestVerifC11Lib did not complete (exit %d, %d/%d lines)" % (rc, len(impl), len(lops)))
         return c.finish(ctx)
     mops, mimpl, jops, jmeta = [], [], [], []
+    cmops, cmimpl, cjops, cjmeta = [], [], [], []      # concurrent mints: (op, worker) per entry
+    hist["concurrent"] = {"ops": 0, "workers": 0, "certificates": 0, "results": 0, "workers_with_several_results": 0,
+                          "verify": {}, "blocks_per_list": {}}
     nontrivial = set()
     dec_panics = []
     for (kind, op, meta), out in zip(lib, impl):
         if out.startswith("bad-op") or out.startswith("cert-error"):
             ctx.broken.append("harness could not run op %r: %s" % (op, out))
+            continue
+        if kind == "cmint":
+            # every certificate a worker got while the others were minting is held against what the statement says about
+            # ITS request alone (model: mint of its list; judge: jmint = c11_member / c11_extract)
+            parts = out.split(" ;; ")
+            workers = meta["workers"]
+            if parts[0] != "workers=%d" % len(workers) or len(parts) != len(workers) + 1:
+                ctx.broken.append("harness could not run op %r: %s" % (op, out[:200]))
+                continue
+            hc = hist["concurrent"]
+            hc["ops"] += 1
+            hc["workers"] += len(workers)
+            hc["certificates"] += 2 * meta["rounds"] * len(workers)
+            for g, ((nets, addr, cls), res) in enumerate(zip(workers, parts[1:])):
+                results = res.split(" || ")
+                hc["results"] += len(results)
+                hc["workers_with_several_results"] += len(results) > 1
+                bump(hc["blocks_per_list"], str(len(nets)))
+                ns = ",".join("other" if x == "other" else blk(*x) for x in nets) or "-"
+                for r in results:
+                    f = kv(r)
+                    if r.startswith("cert-error") or "peer" not in f or "mint" not in f:
+                        ctx.broken.append("harness could not run op %r (worker %d): %s" % (op, g, r[:200]))
+                        continue
+                    if cls is not None and f["peer"] != cls:
+                        ctx.broken.append("generator/peer class: %r worker %d expected %s, net.SplitHostPort/ParseIP say %s" % (op, g, cls, f["peer"]))
+                        continue
+                    cmops.append("mint %s %s" % (ns, f["peer"]))
+                    if f["mint"] == "ok":
+                        cmimpl.append("mint=ok ext=%s parse=%s restricted=%s verify=%s extract=%s" % (
+                            f["ext"], f["parse"], f["restricted"], f["verify"], f["extract"]))
+                        bump(hc["verify"], f["verify"])
+                        if "other" not in nets:
+                            cjops.append("jmint %s %s %s %s" % (ns, f["peer"], f["verify"], f["extract"]))
+                            cjmeta.append((op, g, len(results)))
+                        if f["verify"] == "t":
+                            nontrivial.add("%s#%d" % (op, g))
+                    elif f["mint"] == "PANIC":
+                        cmimpl.append("mint=PANIC")
+                        c.add_violation(ctx, "panic:concurrent:" + op, "GenIPRestrictedX509Cert panicked while %d other requests were minting (worker %d, netblocks %s)"
+                                        % (len(workers) - 1, g, ns), {"lib_op": op, "worker": g, "impl": r})
+                    else:
+                        cmimpl.append("mint=err")
+                        bump(hc["verify"], "refused")
+                        if "other" not in nets:
+                            # statement: a certificate minted for IPv4 netblocks exists; the sequential mint of the same list succeeds
+                            c.add_violation(ctx, "concurrent:" + op, "mint of IPv4 netblocks %s refused while %d other requests were minting (worker %d)"
+                                            % (ns, len(workers) - 1, g), {"lib_op": op, "worker": g, "impl": r})
             continue
         if kind == "decneg":
             bump(hist["dec"], "negative:" + out.split()[0])
@@ -673,6 +781,24 @@ def run(ctx):
         if v != "ok":
             key = ("panic:" if "panic" in v else "lib:") + op
             c.add_violation(ctx, key, "library readers: %s (judge op %s)" % (v, j), {"lib_op": op, "judge": v, "judge_op": j})
+    # concurrent mints: same model, same judge, per worker
+    cmodel = drv(ctx, "model", cmops)
+    cmcanon = []
+    for m in cmodel:
+        if m.startswith("mint=ok"):
+            f = kv(m)
+            m = m.replace("wire=" + f["wire"], "ext=" + der_ext(parse_wire_str(f["wire"])).hex())
+        cmcanon.append(m)
+    c.diff_streams(ctx, "certificates minted while other requests were minting vs KM.IPBlock.mintExt of the request's own netblocks",
+                   cmops, cmimpl, cmcanon)
+    cverdicts = drv(ctx, "judge", cjops)
+    reported = set()
+    for (op, g, nres), j, v in zip(cjmeta, cjops, cverdicts):
+        if v != "ok" and (op, g) not in reported and len(reported) < 6:
+            reported.add((op, g))
+            key = ("panic:concurrent:" if "panic" in v else "concurrent:") + op
+            c.add_violation(ctx, key, "certificate minted while %d other requests were minting (worker %d of the op, %d distinct results): %s (judge op %s)"
+                            % (len(op.split()) - 3, g, nres, v, j), {"lib_op": op, "worker": g, "judge": v, "judge_op": j})
     for op in dec_panics[:3]:
         c.add_violation(ctx, "panic:" + op, "decodeIPV4AddressChoice panicked (index out of range), direct call; %d such ops" % len(dec_panics),
                         {"lib_op": op, "impl": "PANIC"})
@@ -699,6 +825,10 @@ def run(ctx):
     seq_lines = [seq_line(ctx.rng, sq) for sq in seqs]
     n_seq = len(hops)
     hops += [l for l, _ in seq_lines]
+    # creation requests handled at the same time, each certificate refreshed at once (own random stream)
+    cgets = [] if replaying else gen_cget(random.Random("C11-cget-%s" % ctx.seed), 10 if quick else 60, 20 if quick else 60)
+    n_cg = len(hops)
+    hops += [l for l, _, _ in cgets]
     # the same streams on a state the real loader built from a configuration file (baseline automation settings); when the
     # tree accepts configuration keys the pinned list does not know, every such option is switched on first
     new_opts = new_config_options(facts)
@@ -724,7 +854,8 @@ def run(ctx):
     c0 = n_cfg + 1
     out_ref = himpl[:len(hnd)] + himpl[c0:c0 + len(cfg_hnd)]
     out_get = himpl[len(hnd):n_seq] + himpl[c0 + len(cfg_hnd):c0 + len(cfg_hnd) + len(cfg_gets)]
-    out_seq = himpl[n_seq:n_cfg] + himpl[c0 + len(cfg_hnd) + len(cfg_gets):]
+    out_seq = himpl[n_seq:n_cg] + himpl[c0 + len(cfg_hnd) + len(cfg_gets):]
+    out_cget = himpl[n_cg:n_cg + len(cgets)]
     ref_lines = hops[:len(hnd)] + ["cfg " + l for l in hops[c0:c0 + len(cfg_hnd)]]
     all_hnd = hnd + cfg_hnd
     all_gets = [(g, pr, "") for g, pr in zip(gets, gprobes)] + [(g, pr, "cfg ") for g, pr in zip(cfg_gets, cfg_gprobes)]
@@ -903,14 +1034,75 @@ def run(ctx):
             seqv.append({"key": "seq:" + origin, "what": "%s from %s: %s (judge op %s)" % (which, paddr, v, j),
                          "replay": {"handler_seq_op": origin, "judge": v, "judge_op": j, "which": which, "probe": paddr}})
     ctx.violations[:0] = seqv
+    # ------------------------------------------------------------------ creation requests handled at the same time
+    hcg = hist["concurrent_creation"] = {"ops": len(cgets), "workers": 0, "requests": 0, "results": 0, "workers_with_several_results": 0,
+                                         "verify": {}, "refresh_status": {}}
+    gmops, gmimpl, gjops, gjmeta = [], [], [], []
+    for (line, workers, rounds), out in zip(cgets, out_cget):
+        parts = out.split(" ;; ")
+        if parts[0] != "workers=%d" % len(workers) or len(parts) != len(workers) + 1:
+            ctx.broken.append("handler harness could not run op %r: %s" % (line[:200], out[:200]))
+            continue
+        hcg["workers"] += len(workers)
+        hcg["requests"] += 2 * rounds * len(workers)
+        for g, ((strs, nets, addr, cls), res) in enumerate(zip(workers, parts[1:])):
+            results = res.split(" || ")
+            hcg["results"] += len(results)
+            hcg["workers_with_several_results"] += len(results) > 1
+            ns = ",".join(blk(*x) for x in nets)
+            for r in results:
+                f = kv(r)
+                g1 = f.get("get", "?").split("|")
+                r1 = f.get("refresh", "?").split("|")
+                if g1[0] == "PANIC" or r1[0] == "PANIC" or f.get("verify") == "PANIC":
+                    c.add_violation(ctx, "panic:cget:" + line, "panic while %d other creation requests were handled (worker %d): %s" % (len(workers) - 1, g, r[:300]),
+                                    {"handler_seq_op": line, "worker": g, "impl": r})
+                    continue
+                if g1[0] != "200" or len(g1) != 5 or g1[1] != cn or g1[3] != "1":
+                    ctx.broken.append("getRoleRequestingCert %r handled with %d others: %s, expected 200 for %s and the submitted key" % (strs, len(workers) - 1, r[:200], cn))
+                    continue
+                bump(hcg["verify"], f["verify"])
+                bump(hcg["refresh_status"], r1[0])
+                x = "ok:" + g1[2] if g1[2] not in ("err", "noext") else g1[2]
+                # the certificate that came back, against the request's OWN netblocks: c11_member / c11_extract (jmint) ...
+                gjops.append("jmint %s %s %s %s" % (ns, cls, f["verify"], x))
+                gjmeta.append((line, g, "created certificate"))
+                # ... and its refresh from the worker's address: c11_refresh (jref)
+                gjops.append("jref %s %s %s 010 %s %s %s" % (cn, ns, cls, r1[0], r1[1], r1[2]))
+                gjmeta.append((line, g, "refresh of the created certificate"))
+                gmops.append("mint %s %s" % (ns, cls))
+                gmimpl.append("ext=%s verify=%s extract=%s" % (g1[4], f["verify"], x))
+                gmops.append("refm %s %s %s 010" % (cn, ns, cls))
+                gmimpl.append("issued %s %s" % (r1[1], r1[2]) if r1[0] == "200" else "status " + r1[0])
+                if f["verify"] == "t":
+                    nontrivial.add("%s#%d" % (line, g))
+    gmodel = []
+    for m in drv(ctx, "model", gmops):
+        f = kv(m)
+        if m.startswith("mint=ok"):
+            m = "ext=%s verify=%s extract=%s" % (der_ext(parse_wire_str(f["wire"])).hex(), f["verify"], f["extract"])
+        else:
+            m = m.split(" certgen=")[0]
+        gmodel.append(m)
+    c.diff_streams(ctx, "certificates created (and refreshed) while other creation requests were handled vs KM.IPBlock.mintExt / refresh of the request's own netblocks",
+                   gmops, gmimpl, gmodel)
+    cgv, seen_cg = [], set()
+    for (line, g, which), j, v in zip(gjmeta, gjops, drv(ctx, "judge", gjops)):
+        if v != "ok" and (line, g, which) not in seen_cg and len(seen_cg) < 6:
+            seen_cg.add((line, g, which))
+            cgv.append({"key": "concurrent:" + line, "what": "%s, %d other creation requests handled at the same time (worker %d): %s (judge op %s)" % (
+                which, len(line.split()) - 3, g, v, j), "replay": {"handler_seq_op": line, "worker": g, "judge": v, "judge_op": j}})
+    ctx.violations.extend(cgv)
     hist["config_file_state"] = {"report": cfg_report, "new_options": [o["path"] for o in new_opts], "refreshes": len(cfg_hnd),
                                  "creations": len(cfg_gets), "sequences": len(cfg_seqs)}
     hist["prefix_lengths_minted"] = len(hist["prefix_lengths_minted"])
     if hist["prefix_lengths_minted"] != 33 and not replaying:
         ctx.broken.append("generator covered %d of 33 prefix lengths" % hist["prefix_lengths_minted"])
     ctx.coverage.update({
-        "evaluations": len(lops) + 2 * len(all_hnd) + len(all_gets) + 2 * len(umops) + 3 * len(smops),
-        "library_ops": len(lops), "handler_requests": 2 * len(hnd) + len(gets) + 2 * len(umops), "judged": len(jops) + len(ujops) + len(ajops) + len(sjops),
+        "evaluations": len(lops) + 2 * len(all_hnd) + len(all_gets) + 2 * len(umops) + 3 * len(smops) + len(cgets),
+        "library_ops": len(lops), "handler_requests": 2 * len(hnd) + len(gets) + 2 * len(umops), "judged": len(jops) + len(ujops) + len(ajops) + len(sjops) + len(cjops) + len(gjops),
+        "requests_handled_concurrently": hcg["requests"],
+        "certificates_minted_concurrently": hist["concurrent"]["certificates"],
         "refreshes_with_hostile_form_parameters": hist.get("with_form_params", 0), "uses_of_refreshed_certificates": 2 * len(umops),
         "distinct_nontrivial": len(nontrivial),
         "rule": "non-trivial = distinct ops on which the implementation admitted a peer / issued a certificate, extracted netblocks "
@@ -979,6 +1171,9 @@ def lib_op_from_line(line):
         return ("enc", line, {})
     if f[0] == "mint":
         return ("mint", line, {"nets": parse_blocks(f[1]), "peer": None})
+    if f[0] == "cmint":
+        return ("cmint", line, {"rounds": int(f[1]),
+                                "workers": [(parse_blocks(x.split("@")[0]), c.unhexs(x.split("@")[1]), None) for x in f[2:]]})
     return ("raw", line, {"peer": None})
 
 
